@@ -239,7 +239,7 @@ static int32 psParseIntegrityMode(const unsigned char **buf, int32 totLen)
     if (oi == OID_PKCS7_DATA)
     {
         /* Data ::= OCTET STRING */
-        if (*p++ != (ASN_CONTEXT_SPECIFIC | ASN_CONSTRUCTED))
+        if ((end - p) < 1 || *p++ != (ASN_CONTEXT_SPECIFIC | ASN_CONSTRUCTED))
         {
             return PS_PARSE_FAIL;
         }
@@ -247,7 +247,7 @@ static int32 psParseIntegrityMode(const unsigned char **buf, int32 totLen)
         {
             return PS_PARSE_FAIL;
         }
-        if ((*p++ != ASN_OCTET_STRING) ||
+        if ((end - p) < 1 || (*p++ != ASN_OCTET_STRING) ||
             getAsnLength(&p, (int32) (end - p), &totcontentlen) < 0)
         {
             psTraceCrypto("Couldn't parse data from ContentInfo\n");
@@ -805,7 +805,7 @@ static int32 parseSafeContents(psPool_t *pool, unsigned char *password,
             return rc;
         }
         safeLen = (unsigned char *) p + tmpint;
-        if (*p++ != (ASN_CONTEXT_SPECIFIC | ASN_CONSTRUCTED))
+        if ((end - p) < 1 || *p++ != (ASN_CONTEXT_SPECIFIC | ASN_CONSTRUCTED))
         {
             return PS_PARSE_FAIL;
         }
@@ -846,7 +846,7 @@ static int32 parseSafeContents(psPool_t *pool, unsigned char *password,
                 psTraceIntCrypto("Unsupported CertBag type %d\n", certoi);
                 return PS_UNSUPPORTED_FAIL;
             }
-            if (*p++ != (ASN_CONTEXT_SPECIFIC | ASN_CONSTRUCTED))
+            if ((end - p) < 1 || *p++ != (ASN_CONTEXT_SPECIFIC | ASN_CONSTRUCTED))
             {
                 return PS_PARSE_FAIL;
             }
@@ -854,7 +854,7 @@ static int32 parseSafeContents(psPool_t *pool, unsigned char *password,
             {
                 return rc;
             }
-            if ((*p++ != ASN_OCTET_STRING) ||
+            if ((end - p) < 1 || (*p++ != ASN_OCTET_STRING) ||
                 getAsnLength(&p, (int32) (end - p), &tmplen) < 0)
             {
                 psTraceCrypto("Couldn't extract X509 CertBag\n");
@@ -1001,7 +1001,7 @@ static int32 psParseAuthenticatedSafe(psPool_t *pool, psX509Cert_t **cert,
         if (oi == OID_PKCS7_ENCRYPTED_DATA)
         {
             /* password protected mode */
-            if (*p++ != (ASN_CONTEXT_SPECIFIC | ASN_CONSTRUCTED))
+            if ((end - p) < 1 || *p++ != (ASN_CONTEXT_SPECIFIC | ASN_CONSTRUCTED))
             {
                 psTraceCrypto("Initial pkcs7 encrypted data parse failure\n");
                 return PS_PARSE_FAIL;
@@ -1067,7 +1067,7 @@ static int32 psParseAuthenticatedSafe(psPool_t *pool, psX509Cert_t **cert,
         else if (oi == OID_PKCS7_DATA)
         {
             /* Data ::= OCTET STRING */
-            if (*p++ != (ASN_CONTEXT_SPECIFIC | ASN_CONSTRUCTED))
+            if ((end - p) < 1 || *p++ != (ASN_CONTEXT_SPECIFIC | ASN_CONSTRUCTED))
             {
                 psTraceCrypto("Initial pkcs7 data parse failure\n");
                 return PS_PARSE_FAIL;
@@ -1076,7 +1076,7 @@ static int32 psParseAuthenticatedSafe(psPool_t *pool, psX509Cert_t **cert,
             {
                 return PS_PARSE_FAIL;
             }
-            if (*p++ != ASN_OCTET_STRING || getAsnLength(&p,
+            if ((end - p) < 1 || *p++ != ASN_OCTET_STRING || getAsnLength(&p,
                     (int32) (end - p), &tmplen) < 0)
             {
                 return PS_PARSE_FAIL;
@@ -1260,7 +1260,7 @@ int32 psPkcs12ParseMem(psPool_t *pool, psX509Cert_t **cert, psPubKey_t *privKey,
             psTraceCrypto("Algorithm password integrity parse failure\n");
             goto ERR_PARSE;
         }
-        if ((*p++ != ASN_OCTET_STRING) ||
+        if ((end - p) < 1 || (*p++ != ASN_OCTET_STRING) ||
             getAsnLength(&p, (int32) (end - p), &tmplen) < 0)
         {
             psTraceCrypto("Octet digest password integrity parse failure\n");
@@ -1277,7 +1277,7 @@ int32 psPkcs12ParseMem(psPool_t *pool, psX509Cert_t **cert, psPubKey_t *privKey,
         }
         Memcpy(digest, p, tmplen);
         p += tmplen;
-        if ((*p++ != ASN_OCTET_STRING) ||
+        if ((end - p) < 1 || (*p++ != ASN_OCTET_STRING) ||
             getAsnLength(&p, (int32) (end - p), &tmplen) < 0)
         {
             psTraceCrypto("Octet macSalt password integrity parse failure\n");
